@@ -341,5 +341,19 @@ theorem generate_shape (e : Env) (rows : List Row) (out : Bytes) (h : generate e
       simp only [hst, Option.some.injEq] at h
       exact ⟨subj, rfl, by rw [← h, steps_spec e rows st hst]⟩
 
+/-! ### non-vacuity: a concrete history (env ok, kernel fails with exit 2, a skipped step behind it) -/
+private def exRows : List Row :=
+  ((parseFile (S "step,name,exit,duration,delta,log,user,time,skip\n1,env,0,1,0,env.log,root,1,0\n2,kernel,2,9,0,kernel.log,root,2,0\n3,reboot,0,0,0,,root,3,1\n")).getD [])
+private def exEnv : Env :=
+  { mode := .robsd, hostname := S "h", canvasName := [], machine := S "amd64", target := none, builddir := S "/b",
+    logs := fun n => if n = S "kernel.log" then some (S "one\ntwo\n") else none, comment := none, tags := none,
+    cvsLogs := [], packagesDiff := none, suites := [], quiet := [], sizes := [], hasPrev := false }
+example : exRows.length = 3 := by decide +kernel
+example : status .robsd exRows = S "failed in kernel" := by decide +kernel
+example : status .canvas exRows = S "1 failure" := by decide +kernel
+example : exRows.filter (kept exEnv) = [exRows[1]!] := by decide +kernel
+example : status .robsd (exRows.take 1) = S "ok" := by decide +kernel
+example : (generate exEnv exRows).isSome = true := by decide +kernel
+
 end C05
 end Robsd
